@@ -184,9 +184,9 @@ func c08Check(w *gen.World, c *refClosure, r *buildResult) (string, string) {
 			}
 			dep := b.RegistryPackageVersionDeprecation(mp, v)
 			switch {
-			case rv.Deprecated == "" && dep != nil:
+			case !rv.IsDeprecated() && dep != nil:
 				return fmt.Sprintf("registry %s %s is not deprecated but the bundle records %+v", rp.Addr, vs, *dep), "deprecation"
-			case rv.Deprecated != "" && (dep == nil || dep.Reason != rv.Deprecated || dep.Link != rv.Link || dep.Version != v.String()):
+			case rv.IsDeprecated() && (dep == nil || dep.Reason != rv.Deprecated || dep.Link != rv.Link || dep.Version != v.String()):
 				return fmt.Sprintf("registry %s %s: registry attached deprecation %q/%q, the bundle records %+v", rp.Addr, vs, rv.Deprecated, rv.Link, dep), "deprecation"
 			}
 		}
@@ -359,9 +359,9 @@ func c17Check(w *gen.World, c *refClosure, r *buildResult) (string, string) {
 			}
 			dep := r.Bundle.RegistryPackageVersionDeprecation(mp, mustVersion(vs))
 			switch {
-			case rv.Deprecated == "" && dep != nil:
+			case !rv.IsDeprecated() && dep != nil:
 				return fmt.Sprintf("registry %s %s carries no deprecation but the bundle records %+v", w.Registry[ri].Addr, vs, *dep), "deprecation"
-			case rv.Deprecated != "" && (dep == nil || dep.Reason != rv.Deprecated || dep.Link != rv.Link):
+			case rv.IsDeprecated() && (dep == nil || dep.Reason != rv.Deprecated || dep.Link != rv.Link):
 				return fmt.Sprintf("registry %s %s: deprecation %q attached by the registry, bundle records %+v", w.Registry[ri].Addr, vs, rv.Deprecated, dep), "deprecation"
 			}
 		}
@@ -477,6 +477,7 @@ func bundleRun(which string, env *fw.Env, w *gen.World, emptyAllowedOK bool) fw.
 // c14St is the state of one (family, key) of trace events.
 type c14St struct {
 	open, done bool
+	span       string // span token the start callback put on the context it returned
 }
 
 // c14Brackets runs the per-key bracket automaton over the event log:
@@ -501,9 +502,13 @@ func c14Brackets(log []evt, faultFree bool) (map[string]map[string]*c14St, strin
 				return fam, fmt.Sprintf("trace: second %s for %s", e.Kind, e.Key), "trace-bracket"
 			}
 			s.open = true
+			s.span = e.Span
 		case "success", "failure":
 			if !s.open {
 				return fam, fmt.Sprintf("trace: %s for %s without a preceding start", e.Kind, e.Key), "trace-bracket"
+			}
+			if e.Span != s.span {
+				return fam, fmt.Sprintf("trace: %s for %s arrived on a context carrying span %q, but its start callback returned a context carrying %q: the end event does not match its start", e.Kind, e.Key, e.Span, s.span), "trace-bracket"
 			}
 			s.open = false
 			s.done = parts[1] == "success"
